@@ -1,5 +1,5 @@
 (* driver for the C18 model: reads event lines on stdin (one sequence after the other, an "I" line
-   starts a sequence), keeps the model state, prints "<id>\t<ret> | <attempts> | <state>" *)
+   starts a sequence), keeps the multi-partition model state, prints "<id>\t<ret> | <attempts> | <state>" *)
 open Model
 open Vio
 
@@ -12,7 +12,10 @@ let triples s =
   if s = "-" || s = "" then [] else
   List.map (fun p -> match split_on ':' p with
     | [a; b; c] -> (n_of_dec a, (n_of_dec c, n_of_dec b)) | _ -> failwith ("bad triple " ^ p)) (split_on ',' s)
-let place s = if s = "panic" then PPanic else if s = "x" || s = "short" || s = "nondet" then PErr else PList (ints s)
+let place s = if s = "panic" then PPanic else if s = "x" || s = "short" || s = "nondet" || s = "" then PErr else PList (ints s)
+let mplace s =
+  if s = "panic" then MPPanic else if s = "x" || s = "nondet" || s = "" then MPErr
+  else MPLists (List.map ints (split_on '|' s))
 
 let join l = if l = [] then "-" else String.concat "," l
 let sort_by_key l = List.sort (fun (a, _) (b, _) -> compare (int_of_n a) (int_of_n b)) l
@@ -34,14 +37,16 @@ let ret_str = function RCode c -> code_str c | RBool b -> if b then "true" else 
   | RL LOk -> "lok" | RL LErr -> "lerr" | RL LRegErr -> "lregerr"
 let rm_str = function RMarked -> "marked" | RPending -> "pending" | RTransferred -> "data_transferred" | RDone -> "done"
 let b01 b = if b then "1" else "0"
-let atts_str (l : attempt list) =
+let atts_str (l : (n * attempt) list) =
   if l = [] then "-" else
-  String.concat "" (List.map (fun a ->
-    Printf.sprintf "{%s g=%s %s}" (info_str a.a_value) (dec_of_n a.a_gen) (if a.a_ok then "ok" else "fail")) l)
-let state_str (s : st) =
-  Printf.sprintf "reg[%s e=%s] wait=%s un=%s au=%s ne=%s st=%s dn=%s rn=%s fail=%s ln=%s ls=%s rp=%s up=%s md=%s"
-    (info_str s.s_reg.r_info) (dec_of_n s.s_reg.r_info.epoch)
-    (match s.s_waiting with None -> "-" | Some t -> dec_of_n t)
+  String.concat "" (List.map (fun (pid, a) ->
+    Printf.sprintf "{p=%s %s g=%s %s}" (dec_of_n pid) (info_str a.a_value) (dec_of_n a.a_gen) (if a.a_ok then "ok" else "fail")) l)
+let state_str (m : mst) =
+  let s = m.m_g in
+  Printf.sprintf "reg[%s] un=%s au=%s ne=%s st=%s dn=%s rn=%s fail=%s ln=%s ls=%s rp=%s up=%s md=%s"
+    (String.concat " ; " (List.map (fun (pid, sl) ->
+       Printf.sprintf "%s:%s e=%s w=%s" (dec_of_n pid) (info_str sl.p_info) (dec_of_n sl.p_info.epoch)
+         (match sl.p_wait with None -> "-" | Some t -> dec_of_n t)) (sort_by_key m.m_parts)))
     (b01 s.s_unstable) (b01 s.s_auto) (dec_of_n s.s_nepoch) (dec_of_n s.s_stable)
     (join (List.map dec_of_n (List.sort (fun a b -> compare (int_of_n a) (int_of_n b)) s.s_nodes)))
     (join (List.map (fun (k, v) -> dec_of_n k ^ ":" ^ rm_str v) (sort_by_key s.s_rmnodes)))
@@ -69,18 +74,33 @@ let parse_lnodes s =
     let n = String.length p in
     if n > 0 && p.[n - 1] = '!' then (n_of_dec (String.sub p 0 (n - 1)), false) else (n_of_dec p, true)) (split_on ',' s)
 
-let cur : st option ref = ref None
+let parse_part (f : string) : rinfo =
+  match split_on ';' f with
+  | nodes :: ids :: rms :: maxid :: rest ->
+    { raft_nodes = ints nodes; raft_ids = pairs ids; removings = triples rms; max_id = n_of_dec maxid;
+      learners = (match rest with l :: _ -> ints l | [] -> []); epoch = n_of_int 1 }
+  | _ -> failwith ("bad partition " ^ f)
+
+(* "pid=pa/pv;pid=pa/pv" *)
+let parse_probes s =
+  if s = "-" || s = "" then [] else
+  List.map (fun p ->
+    match String.index_opt p '=' with
+    | None -> failwith ("bad probe " ^ p)
+    | Some i ->
+      let pid = n_of_dec (String.sub p 0 i) and v = String.sub p (i + 1) (String.length p - i - 1) in
+      (match split_on '/' v with
+       | [a; b] -> (pid, (place a, place b))
+       | _ -> failwith ("bad probe " ^ p))) (split_on ';' s)
+
+let cur : mst option ref = ref None
+
+let run_events (m : mst) (evs : mevent list) : (mst * ret) * (n * attempt) list =
+  List.fold_left (fun ((m, _), w) e -> let ((m', r), w') = mstep m e in ((m', r), w @ w')) ((m, RNone), []) evs
 
 let () =
   read_lines stdin (fun line ->
     match split_on '\t' line with
-    | id :: "I" :: replica :: nodes :: ids :: rms :: maxid :: auto :: rest ->
-      let lrn = (match rest with _ver :: l :: _ -> ints l | _ -> []) in
-      let info = { raft_nodes = ints nodes; raft_ids = pairs ids; removings = triples rms;
-                   max_id = n_of_dec maxid; learners = lrn; epoch = n_of_int 1 } in
-      let s = init_state (n_of_dec replica) info (auto = "1") in
-      cur := Some s;
-      Printf.printf "%s\t- | - | %s\n" id (state_str s)
     | id :: "Z" :: replica :: _pnum :: nodes :: _ver :: pl :: _ ->
       let place = if pl = "x" || pl = "panic" || pl = "" then None
                   else Some (List.map ints (split_on ';' pl)) in
@@ -90,39 +110,61 @@ let () =
           | Some i -> [Printf.sprintf "{p=%d %s g=0 ok}" p (info_str i)]) parts) in
       Printf.printf "%s\t%s | %s\n" id (match c with COk -> "ok" | CNoNode -> "nonode" | _ -> "err")
         (if ws = [] then "-" else String.concat "" ws)
+    | id :: "I" :: replica :: auto :: _ver :: parts ->
+      let ps = List.mapi (fun i f -> (n_of_int i, parse_part f)) parts in
+      let m = minit (n_of_dec replica) ps (auto = "1") in
+      cur := Some m;
+      Printf.printf "%s\t- | - | %s\n" id (state_str m)
     | id :: kind :: f ->
       (match !cur with
        | None -> Printf.printf "%s\tno-sequence\n" id
-       | Some s ->
-         let ev = (match kind, f with
-           | "N", l :: ll :: _ -> Some (ENodes (ints l, parse_lnodes ll))
-           | "N", l :: _ -> Some (ENodes (ints l, []))
-           | "A", l :: _ -> Some (EAnswer (parse_answers l))
-           | "T", d :: _ -> Some (ETick (n_of_dec d))
-           | "C", full :: _single :: pa :: pv :: _ -> Some (ECheck (full = "1", place pa, place pv))
-           | "M", d :: p :: _ -> Some (EMigrate (n_of_dec d, place p))
-           | "D", k :: _ -> Some (EAdd (n_of_dec k))
-           | "R", k :: _ -> Some (ERemove (n_of_dec k))
-           | "F", _ -> Some EFinish
-           | "X", k :: _ -> Some (EFail (n_of_dec k))
-           | "O", b :: _ -> Some (EAuto (b = "1"))
-           | "B", p :: _ -> Some (EBalance (place p))
-           | "K", k :: _ -> Some (EMarkNode (n_of_dec k))
-           | "P", p :: _ -> Some (EProcess (place p))
-           | "LC", _ -> Some ELCheck
-           | "LS", b :: _ -> Some (ELStart (b = "1"))
-           | "LA", k :: _ -> Some (ELAdd (n_of_dec k))
-           | "LL", k :: _ -> Some (ELLeader (n_of_dec k))
-           | "LR", k :: c :: _ -> Some (ELRemove (n_of_dec k, c = "1"))
-           | "LX", _ -> Some ELRemoveAll
-           | "G", r :: _ -> Some (EReplica (n_of_dec r))
-           | "U", b :: _ -> Some (EUpgrade (b = "1"))
-           | "Y", m :: _ -> Some (ERegMode (n_of_dec m))
+       | Some m ->
+         let pids = List.map fst (sort_by_key m.m_parts) in
+         let on pid e = [MOn (n_of_dec pid, e)] in
+         let evs = (match kind, f with
+           | "N", l :: ll :: _ -> Some [MGlobal (ENodes (ints l, parse_lnodes ll))]
+           | "N", l :: _ -> Some [MGlobal (ENodes (ints l, []))]
+           | "A", fs -> Some (List.map (fun x ->
+               match String.index_opt x '@' with
+               | None -> failwith ("bad answers " ^ x)
+               | Some i -> MOn (n_of_dec (String.sub x 0 i),
+                                EAnswer (parse_answers (String.sub x (i + 1) (String.length x - i - 1))))) fs)
+           | "T", d :: _ -> Some [MGlobal (ETick (n_of_dec d))]
+           | "C", order :: probes :: _ -> Some [MCheckAll (true, ints order, parse_probes probes)]
+           | "CS", pid :: pa :: pv :: _ -> Some (on pid (ECheck (false, place pa, place pv)))
+           | "M", pid :: d :: p :: _ -> Some (on pid (EMigrate (n_of_dec d, place p)))
+           | "D", pid :: k :: _ -> Some (on pid (EAdd (n_of_dec k)))
+           | "R", pid :: k :: _ -> Some (on pid (ERemove (n_of_dec k)))
+           | "F", pid :: _ -> Some (on pid EFinish)
+           | "X", k :: _ -> Some [MGlobal (EFail (n_of_dec k))]
+           | "O", b :: _ -> Some [MGlobal (EAuto (b = "1"))]
+           | "B", order :: p :: _ -> Some [MBalance (ints order, mplace p)]
+           | "K", k :: _ -> Some [MGlobal (EMarkNode (n_of_dec k))]
+           | "P", acted :: p :: _ ->
+             (* which partition the node-removal round acted on is Go map order; the implementation shows it only
+                through an update attempt. Without one, any partition on which the round is silent explains it. *)
+             let mp = mplace p in
+             let order_with first = first :: List.filter (fun x -> x <> first) pids in
+             if acted <> "-" then Some [MProcess (order_with (n_of_dec acted), mp)]
+             else
+               let silent first = (match mstep m (MProcess (order_with first, mp)) with (_, w) -> w = []) in
+               (match List.filter silent pids with
+                | first :: _ -> Some [MProcess (order_with first, mp)]
+                | [] -> Some [MProcess (pids, mp)])
+           | "LC", order :: _ -> Some [MLCheck (ints order)]
+           | "LS", b :: _ -> Some [MGlobal (ELStart (b = "1"))]
+           | "LA", pid :: k :: _ -> Some (on pid (ELAdd (n_of_dec k)))
+           | "LL", pid :: k :: _ -> Some (on pid (ELLeader (n_of_dec k)))
+           | "LR", pid :: k :: c :: _ -> Some (on pid (ELRemove (n_of_dec k, c = "1")))
+           | "LX", pid :: _ -> Some (on pid ELRemoveAll)
+           | "G", r :: _ -> Some [MGlobal (EReplica (n_of_dec r))]
+           | "U", b :: _ -> Some [MGlobal (EUpgrade (b = "1"))]
+           | "Y", md :: _ -> Some [MGlobal (ERegMode (n_of_dec md))]
            | _ -> None) in
-         (match ev with
+         (match evs with
           | None -> Printf.printf "%s\tunsupported\n" id
-          | Some ev ->
-            let ((s', r), w) = step s ev in
-            cur := Some s';
-            Printf.printf "%s\t%s | %s | %s\n" id (ret_str r) (atts_str w) (state_str s')))
+          | Some evs ->
+            let ((m', r), w) = run_events m evs in
+            cur := Some m';
+            Printf.printf "%s\t%s | %s | %s\n" id (ret_str r) (atts_str w) (state_str m')))
     | _ -> ())
